@@ -110,7 +110,7 @@ def modelRt (c : RtCase) : Obs × Bytes :=
   (readAll c.codec (wire.length + 1) src, wire)
 
 /-- `rt` line: model observation (with the wire bytes the model writer produced). -/
-def runModel (ts : List String) : String :=
+def runModelRt (ts : List String) : String :=
   match ts with
   | "rt" :: rest =>
     match parseRt rest with
@@ -121,14 +121,29 @@ def runModel (ts : List String) : String :=
     | none => "bad-case"
   | _ => "bad-case"
 
+/-- `rtw <side> …` is an `rt` case whose chunks were real WebSocket messages: the model does not
+care which transport produced the chunks (`C01_main` quantifies over all chunkings). -/
+def runModel (ts : List String) : String :=
+  match ts with
+  | "rtw" :: _ :: rest =>
+    -- no `wire`/`wc` part in the WebSocket observation: compare the decoded side only
+    let full := runModelRt ("rt" :: rest)
+    " ".intercalate ((full.splitOn " ").takeWhile (· != "wire"))
+  | _ => runModelRt ts
+
 /-- `holds` line: `<case tokens> ## <obs tokens>`: the theorem's predicate on an observation. -/
-def runHolds (caseToks obsToks : List String) : String :=
+def runHoldsRt (caseToks obsToks : List String) : String :=
   match caseToks with
   | "rt" :: rest =>
     match parseRt rest, parseObs obsToks with
     | some c, some o => boolStr (holds c.pkts o)
     | _, _ => "false"      -- unparsable observation (panic, timeout, …) never satisfies the property
   | _ => "bad-case"
+
+def runHolds (caseToks obsToks : List String) : String :=
+  match caseToks with
+  | "rtw" :: _ :: rest => runHoldsRt ("rt" :: rest) obsToks
+  | _ => runHoldsRt caseToks obsToks
 
 /-! ### raw streams (C05) -/
 
